@@ -40,7 +40,7 @@ RULE = ("history world = seeded terminal profile + <= max_ops operations; concur
         "2-4 tasks x seeded schedule making first calls; non-trivial = a get, an invalidating "
         "event and another get at an unchanged terminal size occur in that order, or >= 2 tasks "
         "were inside a first call; distinct = hash of the operation list / schedule")
-PROBES = ["resize_during_cell_size_query", "resizes_while_terminal_size_cached_body_runs", "toggle_then_get_at_unchanged_size", "resize_then_get", "pixel_only_change",
+PROBES = ["resize_during_cell_size_query", "resizes_while_terminal_size_cached_body_runs", "terminal_size_cached_body_failed", "toggle_then_get_at_unchanged_size", "resize_then_get", "pixel_only_change",
           "reenable_queries_discards_disabled_results", "dynamic_ratio_follows_resize",
           "fixed_ratio_survives_resize", "memo_body_once", "terminal_size_cached_recomputed",
           "concurrent_first_calls", "task_waited_on_memo_lock", "auto_ratio_unsupported",
@@ -221,9 +221,14 @@ def run_history(ch, ctx, fault):
 
         calls["falsy"] = {}
 
+        tsc_fails = [False]
+
         @utils.terminal_size_cached
         def tsc():
             calls["tsc"] += 1
+            if tsc_fails[0]:
+                tsc_fails[0] = False
+                raise RuntimeError("the computation failed this time")
             return (vt.cols, vt.rows, tuple(vt.cell_px), calls["tsc"])
 
         memo_expect = {}
@@ -502,8 +507,21 @@ def run_history(ch, ctx, fault):
             elif op == "tsc":
                 size = (vt.cols, vt.rows)
                 n0 = calls["tsc"]
-                got = tsc()
                 fresh_needed = tsc_state["size"] != size
+                if fresh_needed and ch.bool("tsc_body_fails", 0.2):
+                    # the computation fails on the first call at this size: nothing is
+                    # memoized for it, the next call computes again
+                    tsc_fails[0] = True
+                    try:
+                        tsc()
+                        failed = False
+                    except RuntimeError:
+                        failed = True
+                    check(failed and calls["tsc"] == n0 + 1, "failure_of_memoized_body_swallowed",
+                          {"size": size, "body_runs": calls["tsc"] - n0}, "tsc")
+                    ctx.probe("terminal_size_cached_body_failed")
+                    n0 = calls["tsc"]
+                got = tsc()
                 if fresh_needed:
                     check(calls["tsc"] == n0 + 1 and got[:3] == size + (tuple(vt.cell_px),),
                           "terminal_size_cached_value_is_stale",
